@@ -733,10 +733,114 @@ def main():
             fail(f"unrecognised parameter type `{ty}`")
         return f".triple {vty(m1.group(1))}"
 
+    sig_params = [[aty(p) for p in acts[n][0]] for n in range(len(acts))]
+    sig_ret = [vty(acts[n][1]) for n in range(len(acts))]
+
+    # ---- refinement `tok` -> `dtok` (the text of a DIRECTION token), claimed here and CHECKED in Lean:
+    # the Rust types do not distinguish a DIRECTION token from any other `&str`; the flow of its value
+    # from the terminal through the generic builders into the action of `Direction` is followed, and
+    # the slots it passes through are given the refined type. Any inconsistency drops the refinement
+    # (the Lean check of the signature of `Direction`'s action then fails and says so).
+    def structure(n):
+        params, ret, body = acts[n]
+        names = param_names(params)
+        norm = re.sub(r"\s+", " ", body).strip()
+        def arg_of(e):
+            e = e.strip()
+            if re.fullmatch(r"__\d+", e) or e in ("__lookbehind", "__lookahead"):
+                return ("param", names.index(e))
+            if re.fullmatch(r"__temp\d+", e):
+                return ("temp", e)
+            return ("loc",)
+        if comp_re.fullmatch(norm):
+            out = []
+            for st in [x.strip() for x in norm.split(";")]:
+                m2 = re.fullmatch(r"let (__temp\d+) = __action(\d+)\( lookup, diagnostics, input,(.*)\)", st)
+                m4 = re.fullmatch(r"__action(\d+)\( lookup, diagnostics, input,(.*)\)", st)
+                if m2:
+                    out.append(("call", m2.group(1), int(m2.group(2)), [arg_of(x) for x in m2.group(3).split(",") if x.strip()]))
+                elif m4:
+                    out.append(("ret", None, int(m4.group(1)), [arg_of(x) for x in m4.group(2).split(",") if x.strip()]))
+            return ("composite", out)
+        if norm in PRIM_SHAPES:
+            shape = PRIM_SHAPES[norm]
+            idx = {nm: i for i, nm in enumerate(names)}
+            if shape in ("arg0", "some0"):
+                return ("prim", shape[:-1], idx["__0"])
+            if shape == "argV":
+                return ("prim", "arg", idx["v"])
+            if shape == "none":
+                return ("prim", "none", None)
+            return ("prim", "other", None)
+        return ("user",)
+    struct = [structure(n) for n in range(len(acts))]
+    def refined(t):
+        return t.replace(".tok", ".dtok")
+    def refine():
+        if "DIRECTION" not in terms:
+            return None
+        msym = {terms.index("DIRECTION")}          # symbol ids
+        mparam, mret = set(), set()                 # (action, index), action
+        nt_prods = {}
+        for i in range(len(prods)):
+            lhs, rhs, act, fallible, accept, ret = prods[i]
+            if not accept:
+                nt_prods.setdefault(nt_of[lhs], []).append(i)
+        changed = True
+        while changed:
+            changed = False
+            def mark(st, x):
+                nonlocal changed
+                if x not in st:
+                    st.add(x)
+                    changed = True
+            for i in range(len(prods)):
+                lhs, rhs, act, fallible, accept, ret = prods[i]
+                for j, x in enumerate(rhs):
+                    if sym_id(x) in msym:
+                        if accept:
+                            return None
+                        mark(mparam, (act, j))
+                if not accept and act in mret:
+                    mark(msym, ncols + nt_of[lhs])
+                if not accept and ncols + nt_of[lhs] in msym and struct[act] == ("prim", "none", None):
+                    mark(mret, act)
+            for n in range(len(acts)):
+                k = struct[n]
+                mine = [i for (a, i) in mparam if a == n]
+                if k[0] == "prim":
+                    if k[1] in ("arg", "some"):
+                        if k[2] in mine:
+                            mark(mret, n)
+                    elif mine:
+                        return None                  # a builder this flow is not followed through
+                elif k[0] == "composite":
+                    temps = {}
+                    for kind, tmp, callee, args in k[1]:
+                        for pos, a in enumerate(args):
+                            if (a[0] == "param" and a[1] in mine) or (a[0] == "temp" and temps.get(a[1])):
+                                mark(mparam, (callee, pos))
+                        if kind == "call":
+                            temps[tmp] = callee in mret
+                        elif callee in mret:
+                            mark(mret, n)
+        # consistency: all productions of a refined non-terminal return the refined type
+        for sid in msym:
+            if sid >= ncols:
+                for i in nt_prods.get(sid - ncols, []):
+                    if prods[i][2] not in mret:
+                        return None
+        return msym, mparam, mret
+    ref = refine()
+    if ref:
+        msym, mparam, mret = ref
+        for (a, i) in mparam:
+            sig_params[a][i] = refined(sig_params[a][i])
+        for a in mret:
+            sig_ret[a] = refined(sig_ret[a])
     sigs = []
     for n in range(len(acts)):
-        params, ret, body = acts[n]
-        sigs.append("  { params := [" + ", ".join(aty(p) for p in params) + "], ret := " + vty(ret) + " }")
+        sigs.append("  { params := [" + ", ".join(sig_params[n]) + "], ret := " + sig_ret[n] + " }")
     # type of every symbol id: terminals are tokens, `error` is the recovery record, a non-terminal
     # has the return type of the actions of its productions
     nt_ty = {}
@@ -744,11 +848,15 @@ def main():
         lhs, rhs, act, fallible, accept, ret = prods[i]
         if accept:
             continue
-        t = vty(acts[act][1])
+        t = sig_ret[act]
         if nt_ty.setdefault(nt_of[lhs], t) != t:
             fail(f"non-terminal {lhs} has two types")
     nnt = max(nt_ty) + 1
     sym_tys = [".tok"] * (ncols - 1) + [".recovery"] + [nt_ty.get(k, ".tok") for k in range(nnt)]
+    if ref:
+        for sid in ref[0]:
+            if sid < ncols - 1:
+                sym_tys[sid] = ".dtok"
     # call depth of every action (0 for generic builders and actions with user text)
     calls = {}
     for n in range(len(acts)):
